@@ -668,3 +668,5 @@ def run(ctx):
             r48(ctx, s_, result=res_, KEY=key_)
     # R9 GEOMETRY (= C16.R1/R2): set_ep, the castling rook squares and the double-step test read the geometry tables
     tables_dep(ctx, 'C02.R9', ['board::Board::make_move', 'board::Board::make_move_new'])
+    # R10 BUILD-PARITY: the two entry points write and call the same things with and without debug assertions
+    debug_parity(ctx, 'C02.R10', ['board::Board::make_move', 'board::Board::make_move_new'])
